@@ -16,14 +16,75 @@ def attr_stores(idx, names, path_prefix=None):
     return out
 
 
+def _const_table(idx, fi, node):
+    """the literal container a loop iterates when it is a class-/module-level constant table (or its items()/keys()), else None"""
+    mode = "seq"
+    if isinstance(node, ast.Call) and isinstance(node.func, ast.Attribute) and node.func.attr in ("items", "keys", "values") and not node.args:
+        mode = node.func.attr
+        node = node.func.value
+    tbl = None
+    if isinstance(node, ast.Attribute) and isinstance(node.value, ast.Name):
+        cname = fi.cls if node.value.id in ("self", "cls") else node.value.id
+        if cname and idx.has_cls(cname):
+            for c in idx.mro(cname):
+                if node.attr in c.class_assigns:
+                    tbl = c.class_assigns[node.attr]
+                    break
+    elif isinstance(node, ast.Name):
+        tbl = idx.module_consts.get((fi.file, node.id))
+    elif isinstance(node, (ast.Tuple, ast.List, ast.Dict)):
+        tbl = node
+    if isinstance(tbl, ast.Dict):
+        if mode in ("seq", "keys"):
+            return list(tbl.keys)
+        if mode == "values":
+            return list(tbl.values)
+        return [ast.Tuple(elts=[k, v], ctx=ast.Load()) for k, v in zip(tbl.keys, tbl.values)]
+    if isinstance(tbl, (ast.Tuple, ast.List)) and mode == "seq":
+        return list(tbl.elts)
+    return None
+
+
+def possible_strings(idx, fi, node):
+    """the set of strings an expression used as an attribute name can take, when that is decided by the source: a literal, or a loop
+    variable running over a constant table; None when unknown"""
+    if isinstance(node, ast.Constant):
+        return {node.value} if isinstance(node.value, str) else None
+    if not isinstance(node, ast.Name):
+        return None
+    binds = [t for t, v, st in stores_in(fi.node) if any(isinstance(x, ast.Name) and x.id == node.id for x in ast.walk(t))]
+    loops = [n for n in walk_no_nested(fi.node) if isinstance(n, (ast.For, ast.comprehension)) and any(isinstance(x, ast.Name) and x.id == node.id for x in ast.walk(n.target))]
+    if len(loops) != 1 or len(binds) > 1:
+        return None
+    lp = loops[0]
+    rows = _const_table(idx, fi, lp.iter)
+    if rows is None:
+        return None
+    out = set()
+    for r in rows:
+        if isinstance(lp.target, ast.Name):
+            el = r
+        elif isinstance(lp.target, ast.Tuple) and isinstance(r, ast.Tuple) and len(r.elts) == len(lp.target.elts):
+            pos = [i for i, x in enumerate(lp.target.elts) if isinstance(x, ast.Name) and x.id == node.id]
+            if len(pos) != 1:
+                return None
+            el = r.elts[pos[0]]
+        else:
+            return None
+        if not (isinstance(el, ast.Constant) and isinstance(el.value, str)):
+            return None
+        out.add(el.value)
+    return out
+
+
 def reflection_uses(idx, names):
     """setattr(x, '<name>', ..) / __dict__ stores that could bypass a who-may-write rule"""
     out = []
     for fi in idx.all_funcs():
         for n in walk_no_nested(fi.node):
             if isinstance(n, ast.Call) and call_name(n) == "setattr" and len(n.args) >= 2:
-                a = n.args[1]
-                if not isinstance(a, ast.Constant) or a.value in names:
+                poss = possible_strings(idx, fi, n.args[1])
+                if poss is None or poss & set(names):
                     out.append((fi, n))
             if isinstance(n, ast.Attribute) and n.attr == "__dict__" and isinstance(getattr(n, "ctx", None), ast.Load):
                 # only flag when used as a store target base
